@@ -10,13 +10,24 @@ from .common import Corr, hex2f
 from .c01 import make_target
 
 ID = "C02"
-LEAN_MODULES = ["TempestVerif.Props.C02", "TempestVerif.Props.C03", "TempestVerif.Props.C06"]   # C03: the kernel the pipeline takes from the tape
+LEAN_MODULES = ["TempestVerif.Props.C02", "TempestVerif.Props.C02Stat", "TempestVerif.Props.C02X",
+                "TempestVerif.Props.C03", "TempestVerif.Props.C06"]   # C03 / C06: kernel and resampler the pipeline composes
 RULE = ("(a) evidence trace replay: real runs driven to termination with all randomness observed; the Lean pipeline model replays the "
         "tape and must reproduce every per-iteration logZ and the FINAL evidence (the beta = 1 mixture estimate over the whole history) "
         "within 1e-9; the real epilogue value (compute_logw_and_logz(1.0)) is what evidence() reports. (b) seed sensitivity predicted "
         "by the RNG dataflow model (no constant reseed): differently seeded runs, with clustering on and off, give different evidence "
-        "values. Non-trivial = run with >= 2 annealing iterations / a clustering configuration.")
-MODELLED = ["PARTIAL: consistency over the ensemble of seeds and the 1/sqrt(R) law are statements about a sampling distribution; proved are "
+        "values. Non-trivial = run with >= 2 annealing iterations / a clustering configuration. (c) evidence-of-run: real "
+        "Sampler.run(n_total) calls over the lattice kernel x resampler x clustering x {ESS, volume-variation} x boundary kinds, recorded "
+        "and replayed by the EXTENDED model (Model/PipelineX.lean: whole mutation loop, both reweighting modes, loop guard, epilogue): the "
+        "model must stop where run() stops and its epilogue value must equal Sampler.evidence()[0] (1e-9), which must be the state's "
+        "logz with error None. (d) run-isolation: a seeded run returns bit-identical evidence and posterior arrays whatever ran before "
+        "it in the same process (the run is a function of its own random stream only).")
+MODELLED = ["independence of runs: PROVED for the model (a run's reported value is a function of its own tape: C02_X_runs_independent, with "
+            "C02_mean_of_runs_mse / C02_runs_variance_general the 1/sqrt(R) law) UNDER the idealisation that the random streams of "
+            "differently seeded runs are independent (MT19937 is modelled, not verified) and that a real run reads no other entropy "
+            "(C09: G3 table of RNG call sites; suite run-isolation)",
+            "E[log Z_hat] <= log E[Z_hat] (C02_log_evidence_biased_low): an unbiased evidence gives a log-evidence biased LOW at finite N",
+            "PARTIAL: consistency over the ensemble of seeds and the 1/sqrt(R) law are statements about a sampling distribution; proved are "
             "the unbiasedness identity of the mixture estimator under nominal batch laws, the identification of evidence() with the log mean "
             "weight at beta = 1, and the RNG dataflow (C09) that makes runs from different seeds use different innovations",
             "bias from adaptivity / estimated normalisers at finite N is allowed by the statement and not quantified"]
@@ -87,11 +98,51 @@ def correspond(tier):
             c2.disagree(input={"clustering": clustering, "kernel": kernel, "seeds": [11, 12, 13]}, impl=vals,
                         model="runs from different seeds use different innovations (C09_no_reseed_injective)")
         c2.sample({"clustering": clustering, "kernel": kernel, "logZ by seed": vals})
+    from . import pipelinex
+    ce = pipelinex.suite_real_runs(tier, "C02.e", "evidence")
+    c3 = _isolation_suite(tier)
     from .c01 import _dependency_suites
-    return [c, c2] + _dependency_suites(tier)
+    return [c, ce, c2, c3] + _dependency_suites(tier)
+
+
+def _isolation_suite(tier):
+    """`run` is a function of its own random stream only: whatever other samplers did before in this process (other
+    configuration, clustering on, other seed), a run seeded with b gives bit-identical evidence and posterior arrays"""
+    from tempest import Sampler
+    c = Corr("run-isolation", "exact (bit equality of evidence and of the posterior arrays)")
+    rng = common.rng_for("C02.iso")
+
+    def run(seed, clustering, kernel, n=24, d=2):
+        with _quiet(), warnings.catch_warnings():
+            warnings.simplefilter("ignore")
+            s = Sampler(lambda u: 8.0 * u - 4.0, lambda x: float(np.logaddexp(-2.0 * np.sum((x - 1.5) ** 2), -2.0 * np.sum((x + 1.5) ** 2))),
+                        d, n_particles=n, clustering=clustering, sample=kernel, n_steps=1, n_max_steps=2, random_state=seed)
+            s.run(n_total=2 * n, progress=False)
+            x, w, l = s.posterior()
+        return float(s.evidence()[0]), x.tobytes(), w.tobytes()
+    for k in range(3 if tier == "quick" else 12):
+        clustering, kernel = bool(k % 2), ("tpcn", "rwm")[(k // 2) % 2]
+        b = rng.randrange(2 ** 31)
+        first = run(b, clustering, kernel)
+        run(rng.randrange(2 ** 31), not clustering, "rwm" if kernel == "tpcn" else "tpcn", n=16)   # something else in between
+        np.random.seed(rng.randrange(2 ** 31))
+        np.random.rand(17)
+        second = run(b, clustering, kernel)
+        c.case((clustering, kernel, b), True)
+        c.count("clustering_on" if clustering else "clustering_off")
+        if first != second:
+            c.disagree(input={"seed": b, "clustering": clustering, "kernel": kernel}, impl=f"evidence {first[0]!r} then {second[0]!r}",
+                       model="a seeded run is a function of its seed (Props.C02.C02_seed_independence_dataflow)")
+    return c
 
 
 def search(tier, hints):
+    # 1. the exact contract of what evidence() reports (deterministic; cannot fire on correct code)
+    from . import psoracles
+    found = psoracles.search("evidence", tier)
+    if found:
+        return found
+    # 2. the statement's own (statistical) oracle: ensemble mean error / identical values across seeds
     return ensemble.search_evidence(tier)
 
 
@@ -100,5 +151,9 @@ def replay(obj):
     if "witness" in f.get("replay", {}):
         from . import witnesses
         return witnesses.ALL[f["replay"]["witness"]]()
+    if "contract" in f.get("replay", {}):
+        from . import psoracles
+        r = f["replay"]
+        return psoracles.replay(r["contract"], r["cell"], r["seed"])
     r = ensemble.run_cell(f["cell"], "evidence", f.get("R", 24))
     return {"fails": r["fails"], "detail": r}
